@@ -215,7 +215,8 @@ class BuildSystem():
 
             molecule = molecules[mol_idx]
 
-            if all(["position" in molecule.nodes[node] for node in molecule.nodes]):
+            if molecule.mol_name in self.ignore or\
+               all(["position" in molecule.nodes[node] for node in molecule.nodes]):
                 mol_idx += 1
                 pbar.update(1)
                 continue
@@ -244,8 +245,12 @@ class BuildSystem():
         # filter all molecules that should be ignored during the building process
         self.molecules = list(_filter_by_molname(self.topology.molecules, self.ignore))
         # generate the nonbonded matrix wrapping all information about molecular
-        # interactions
-        self.nonbond_matrix = NonBondEngine.from_topology(self.molecules, self.topology, self.box)
+        # interactions; ignored molecules are left out but the other molecules
+        # keep their index in the topology, which all other parts refer to
+        self.nonbond_matrix = NonBondEngine.from_topology(self.topology.molecules,
+                                                          self.topology,
+                                                          self.box,
+                                                          ignore=self.ignore)
         # apply sampling of persistence length
         sample_end_to_end_distances(self.topology, self.nonbond_matrix)
         # set any other distance and/or position restraints
